@@ -52,7 +52,9 @@ impl Sandbox {
     pub fn new() -> Sandbox {
         let shm = if std::path::Path::new("/dev/shm").is_dir() { "/dev/shm".to_string() } else { std::env::temp_dir().to_string_lossy().into_owned() };
         let base = format!("{}/rvsim-{}", shm, std::process::id());
-        Sandbox { root: format!("{}/sb", base), base }
+        // padding: a relative link that is moved may climb a few levels above the sandbox root on
+        // disk; whatever it reaches must still be inside the private directory that is removed
+        Sandbox { root: format!("{}/_/_/_/_/_/_/_/_/sb", base), base }
     }
     fn force_writable(p: &std::path::Path) {
         if let Ok(meta) = std::fs::symlink_metadata(p) {
@@ -169,6 +171,7 @@ pub fn leg(id: &str) -> Option<(Vec<(&'static str, u32)>, Vec<&'static str>)> {
             cat(&[build, &[("mkdir_m", 4), ("mkfile_m", 4), ("chmod", 10), ("chmod_b", 22), ("mode", 6), ("is_exec", 4), ("is_readonly", 4)]]),
             vec!["chmod", "chmod_b", "mode", "is_exec", "is_readonly", "mkdir_m", "mkfile_m"],
         )),
+        "C20" => Some((cat(&[build, &[("macro", 40), ("remove", 2), ("move_p", 2)]]), vec!["macro"])),
         _ => None,
     }
 }
@@ -242,6 +245,7 @@ fn sanitize(op: &mut Op) {
                 }
             }
         },
+        Op::Macro { name, mode: Some(m), .. } if name == "mkdir_m" => *m = (*m & 0o170000) | safe_mode(*m, true),
         Op::CopyB { calls, .. } => {
             for c in calls.iter_mut() {
                 match c {
@@ -257,12 +261,20 @@ fn sanitize(op: &mut Op) {
 
 /// Every link resolves to an existing non-link entry (the stated domain of C02)
 fn in_domain(m: &Model) -> bool {
+    in_domain_opt(m, false)
+}
+
+/// `dangling_ok`: links whose target is missing are tolerated (C10 speaks about targets "existing
+/// or not"); everything else about the domain stays
+fn in_domain_opt(m: &Model, dangling_ok: bool) -> bool {
     m.t.nodes.values().all(|n| match (&n.kind, &n.target) {
+        (Kind::Link, Some(t)) if dangling_ok && m.k(t) == K::Missing => true,
         // ... and records the kind its target has now: a disk has no "kind at creation", so a
         // state in which Memfs remembers a different kind has no counterpart on disk
         (Kind::Link, Some(t)) => matches!(m.k(t), K::Dir | K::File) && n.link_dir == (m.k(t) == K::Dir),
         _ => true,
     }) && m.t.nodes.iter().all(|(k, n)| match (&n.kind, &n.target, &n.rel) {
+        (Kind::Link, Some(t), _) if dangling_ok && m.k(t) == K::Missing && !m.through_link(t) => true,
         // ... and its stored relative text still leads from where the link is now to that target:
         // a moved link keeps its text on disk but its absolute target in Memfs
         (Kind::Link, Some(t), Some(r)) => {
@@ -326,6 +338,7 @@ fn admissible(m: &Model, op: &Op) -> bool {
     match op {
         // never pull the process cwd (or the sandbox root) out from under the real backend
         Op::Remove { .. } | Op::RemoveAll { .. } => !abs.iter().any(|a| is_under(&cwd, a)),
+        Op::Macro { name, .. } if name == "remove" || name == "remove_all" => !is_under(&cwd, &abs[0]),
         Op::MoveP { .. } => {
             // neither the source nor a destination that gets replaced may hold the process cwd
             let into = m.k(&abs[1]) == K::Dir;
@@ -426,6 +439,8 @@ fn normalise(o: &Outcome) -> Outcome {
     match o {
         // which error is reported is not part of the interchangeability statement
         Outcome::Err(_) => Outcome::Err("any".into()),
+        // (what a macro says when it fails quotes backend-specific error text)
+        Outcome::Panic(_) => Outcome::Panic("any".into()),
         Outcome::Ok(Val::Entry(v)) => Outcome::Ok(Val::Entry(link_neutral(v))),
         Outcome::Ok(Val::EntryF(a, b, c, d)) => Outcome::Ok(Val::EntryF(link_neutral(a), link_neutral(b), link_neutral(c), link_neutral(d))),
         // traversal order of unsorted listings is free (and C08's business when sorted): multiset
@@ -516,8 +531,9 @@ pub fn run_diff(
     };
     let mut i = 0;
     let mut attempts = 0;
+    let dangling_ok = prop == "C10";
     while i < total {
-        if !in_domain(&m) {
+        if !in_domain_opt(&m, dangling_ok) {
             stats.bump("runs_ended_leaving_the_domain");
             break;
         }
@@ -637,7 +653,9 @@ pub fn run_diff(
         m.after(&vop, &mo, &pre_t);
         let _ = (Expect::Any, Next::Same);
         if let (Some(_), Some(rel)) = (&v, &relevant) {
-            if !rel.contains(&vop.name()) {
+            let dangling_arg = class.contains("->missing");
+            let stated_for_dangling = matches!(vop.name(), "symlink" | "readlink" | "readlink_abs" | "is_symlink" | "is_file" | "is_dir" | "remove");
+            if !rel.contains(&vop.name()) || (dangling_arg && !stated_for_dangling) {
                 // a divergence on an operation that belongs to another property: not reported by
                 // this leg, but nothing after it can be attributed either
                 stats.bump("leg_runs_ended_by_foreign_divergence");
@@ -781,6 +799,267 @@ fn minimise(mut case: DiffCase, sig: &str) -> DiffCase {
         case.what = v.detail;
     }
     case
+}
+
+/// Twin mode on the real backend: the same history runs in two sibling sandboxes, once on `Stdfs`
+/// directly and once
+///  * through `Vfs::Stdfs` (C13: the wrapper arms of the real backend), or
+///  * with every path argument already resolved (C05: spelling independence on the real backend).
+/// Outcomes (sandbox prefix normalised) and the trees seen by the disk observer must coincide.
+pub fn run_twin(prop: &str, base: &Sandbox, venv: &Env, pre: &Tree, mut src: Src, stats: &mut Stats, known: &dyn Fn(&Violation) -> bool) -> DiffOut {
+    let mut out = DiffOut { ops: vec![], violations: vec![], log_hash: 0, harness_skip: None };
+    let a = Sandbox { base: base.base.clone(), root: format!("{}/a/_/_/_/_/_/_/_/_/sb", base.base) };
+    let b = Sandbox { base: base.base.clone(), root: format!("{}/b/_/_/_/_/_/_/_/_/sb", base.base) };
+    if let Err(e) = base.fresh().and_then(|_| std::fs::create_dir_all(&a.root)).and_then(|_| std::fs::create_dir_all(&b.root)) {
+        out.harness_skip = Some(format!("sandbox: {}", e));
+        return out;
+    }
+    for sb in [&a, &b] {
+        if let Err(e) = materialise_disk(sb, pre) {
+            out.harness_skip = Some(format!("materialise disk: {}", e));
+            let _ = std::env::set_current_dir("/");
+            return out;
+        }
+    }
+    let with_targets = |sb: &Sandbox| -> Result<Tree, String> {
+        let mut t = disk_tree(sb)?;
+        // the observer reads link texts only: derive the absolute targets lexically
+        let keys: Vec<String> = t.nodes.keys().cloned().collect();
+        for k in keys {
+            let n = t.nodes.get_mut(&k).unwrap();
+            if n.kind == Kind::Link {
+                let r = n.rel.clone().unwrap_or_default();
+                let dir = tree::parent(&k).unwrap_or_else(|| "/".into());
+                n.target = Some(if r.starts_with('/') { sb.virt(&r).unwrap_or(r) } else { crate::refpath::clean(&format!("{}/{}", dir, r)) });
+            }
+        }
+        Ok(t)
+    };
+    let direct = Stdfs::new();
+    let wrapped = Vfs::stdfs();
+    let mut ha = Handles::default();
+    let mut hb = Handles::default();
+    let mut cwd_a = a.real(&pre.cwd);
+    let mut cwd_b = b.real(&pre.cwd);
+    let mut m = Model::new(venv.clone());
+    m.t = match with_targets(&a) {
+        Ok(mut t) => {
+            t.cwd = pre.cwd.clone();
+            t
+        },
+        Err(e) => {
+            out.harness_skip = Some(e);
+            return out;
+        },
+    };
+    stats.runs += 1;
+    let total = match &src {
+        Src::Gen { len, .. } => *len,
+        Src::Replay(o) => o.len(),
+    };
+    let mut i = 0;
+    let mut attempts = 0;
+    while i < total {
+        if !in_domain(&m) {
+            break;
+        }
+        let vop = match &mut src {
+            Src::Gen { gen, rng, .. } => {
+                attempts += 1;
+                if attempts > total * 20 {
+                    break;
+                }
+                let mut op = gen.next_op(&m, rng);
+                sanitize(&mut op);
+                if !admissible(&m, &op) || !comparable(&op) || op.is_handle_op() {
+                    continue;
+                }
+                op
+            },
+            Src::Replay(o) => {
+                let op = o[i].clone();
+                if !admissible(&m, &op) {
+                    i += 1;
+                    continue;
+                }
+                op
+            },
+        };
+        i += 1;
+        let class = seq::op_class(&m, &vop);
+        let vop_b = if prop == "C05" { seq::canonical_op(&m, &vop).unwrap_or_else(|| vop.clone()) } else { vop.clone() };
+        seq::set_env(&a.map_env(venv));
+        let _ = std::env::set_current_dir(&cwd_a);
+        let oa = exec::exec(&direct, &mut ha, &a.map_op(&vop));
+        cwd_a = std::env::current_dir().map(|c| c.to_string_lossy().into_owned()).unwrap_or(cwd_a);
+        seq::set_env(&b.map_env(venv));
+        let _ = std::env::set_current_dir(&cwd_b);
+        let ob = if prop == "C05" { exec::exec(&direct, &mut hb, &b.map_op(&vop_b)) } else { exec::exec(&wrapped, &mut hb, &b.map_op(&vop_b)) };
+        cwd_b = std::env::current_dir().map(|c| c.to_string_lossy().into_owned()).unwrap_or(cwd_b);
+        out.ops.push(vop.clone());
+        stats.steps += 1;
+        let step = out.ops.len() - 1;
+        let na = format!("{:?}", normalise_order(&oa)).replace(&a.root, "<SB>");
+        let nb = format!("{:?}", normalise_order(&ob)).replace(&b.root, "<SB>");
+        let what = if prop == "C05" { "spelling" } else { "wrapper" };
+        let mut v: Option<Violation> = None;
+        if na != nb {
+            v = Some(Violation {
+                property: prop.into(),
+                oracle: format!("stdfs-{}-outcome", what),
+                step,
+                sig: format!("stdfs-{}-outcome|{}|{}|{} vs {}", what, vop.label(), class, oa.class3(), ob.class3()),
+                detail: format!("{:?} -> {} but {} {:?} -> {}", vop, na.chars().take(300).collect::<String>(), what, vop_b, nb.chars().take(300).collect::<String>()),
+            });
+        }
+        let (ta, tb) = match (with_targets(&a), with_targets(&b)) {
+            (Ok(x), Ok(y)) => (x, y),
+            _ => {
+                out.harness_skip = Some("observer".into());
+                break;
+            },
+        };
+        if v.is_none() {
+            let mut ds = tree::diff(&ta, &tb, CMP);
+            let (va, vb) = (a.virt(&cwd_a).unwrap_or_default(), b.virt(&cwd_b).unwrap_or_default());
+            if va != vb {
+                ds.push(tree::Delta { what: "cwd", path: va.clone(), detail: format!("cwd {} vs {}", va, vb) });
+            }
+            if !ds.is_empty() {
+                let mut kinds: Vec<&str> = ds.iter().map(|d| d.what).collect();
+                kinds.sort();
+                kinds.dedup();
+                v = Some(Violation {
+                    property: prop.into(),
+                    oracle: format!("stdfs-{}-state", what),
+                    step,
+                    sig: format!("stdfs-{}-state|{}|{}|{}", what, vop.label(), class, kinds.join("+")),
+                    detail: format!("{:?} vs {} {:?}: trees differ: {:?}", vop, what, vop_b, ds.iter().take(4).collect::<Vec<_>>()),
+                });
+            }
+        }
+        stats.bump(&format!("stdfs_twin_compared.{}", vop.name()));
+        let triple = format!("twin|{}|{}|{}", vop.label(), class, oa.class3());
+        if m.t.nodes.len() <= 1 {
+            stats.trivial_triples.insert(triple);
+        } else {
+            stats.triples.insert(triple);
+        }
+        out.log_hash = hash_bytes(out.log_hash, format!("{:?}{}{}", vop, na, nb).as_bytes());
+        out.log_hash = hash_bytes(out.log_hash, &ta.full_hash().to_le_bytes());
+        let pre_t = m.t.clone();
+        m.t = ta;
+        m.t.cwd = a.virt(&cwd_a).unwrap_or_else(|| "/".into());
+        m.after(&vop, &oa, &pre_t);
+        if let Some(v) = v {
+            if known(&v) {
+                *stats.known_hits.entry(v.sig.clone()).or_insert(0) += 1;
+            } else {
+                out.violations.push(v);
+            }
+            break;
+        }
+        // a multi-entry call may stop at different points in the two sandboxes only if it failed
+        if oa.is_err() && matches!(vop, Op::Copy { .. } | Op::CopyB { .. } | Op::Chmod { .. } | Op::ChmodB { .. } | Op::RemoveAll { .. }) {
+            break;
+        }
+    }
+    ha.clear();
+    hb.clear();
+    let _ = std::env::set_current_dir("/");
+    out
+}
+
+fn normalise_order(o: &Outcome) -> Outcome {
+    match o {
+        // readdir order is the kernel's: unsorted traversals are compared as multisets
+        Outcome::Ok(Val::Entries(items, ended)) => {
+            let mut it = items.clone();
+            if it.iter().any(|x| x.is_err()) {
+                it = vec![Err("any".to_string())];
+            }
+            it.sort_by_key(|x| format!("{:?}", x));
+            Outcome::Ok(Val::Entries(it, *ended))
+        },
+        x => x.clone(),
+    }
+}
+
+pub fn twin_index(id: &str, tier: &str, seed: u64, idx: u64, stats: &mut Stats, known: &dyn Fn(&Violation) -> bool) -> Option<Finding> {
+    drop_privileges_once();
+    let rs = mix(&[seed, hash_str(id), hash_str(tier), hash_str("twin"), idx]);
+    let mut rng = Rng::new(rs);
+    let mut p = profile();
+    if id == "C05" {
+        p.spelling = 2;
+    }
+    let mut gen = Gen::new(p, format!("{}", idx), &mut rng);
+    let venv = venv_of(&gen.names, &mut rng);
+    let pre = random_tree(&mut gen, &venv, &mut rng);
+    let len = rng.range(1, 8);
+    let out = SANDBOX.with(|sb| {
+        let o = run_twin(id, sb, &venv, &pre, Src::Gen { gen: &mut gen, rng: &mut rng, len }, stats, known);
+        sb.cleanup();
+        o
+    });
+    if out.harness_skip.is_some() {
+        stats.bump("HARNESS.twin_run_skipped");
+        return None;
+    }
+    stats.distinct_cases.insert(out.log_hash);
+    stats.bump("stdfs_twin_runs");
+    let v = out.violations.into_iter().next()?;
+    let mut case = DiffCase {
+        format: 1,
+        property: id.into(),
+        world: "TWIN".into(),
+        seed,
+        run: idx,
+        knobs: Knobs::default(),
+        env: venv,
+        tree: pre,
+        ops: out.ops,
+        expect: Some(seq::ExpectSig { sig: v.sig.clone(), step: v.step }),
+        log_hash: format!("{:016x}", out.log_hash),
+        what: v.detail.clone(),
+    };
+    // minimise: drop operations before the failing one while the signature persists
+    let still = |c: &DiffCase| -> bool {
+        let mut st = Stats::default();
+        SANDBOX.with(|sb| {
+            let o = run_twin(&c.property, sb, &c.env, &c.tree, Src::Replay(&c.ops), &mut st, &|_| false);
+            sb.cleanup();
+            o.violations.first().map(|x| x.sig == v.sig).unwrap_or(false)
+        })
+    };
+    case.ops.truncate(v.step + 1);
+    let mut i = 0;
+    while i + 1 < case.ops.len() {
+        let mut c2 = case.clone();
+        c2.ops.remove(i);
+        if still(&c2) {
+            case = c2;
+        } else {
+            i += 1;
+        }
+    }
+    case.expect = Some(seq::ExpectSig { sig: v.sig.clone(), step: case.ops.len().saturating_sub(1) });
+    Some(Finding { violation: v, case: serde_json::to_value(&case).unwrap() })
+}
+
+pub fn replay_twin(case: &serde_json::Value) -> Result<(Option<Violation>, String), String> {
+    drop_privileges_once();
+    let c: DiffCase = serde_json::from_value(case.clone()).map_err(|e| e.to_string())?;
+    let mut st = Stats::default();
+    let out = SANDBOX.with(|sb| {
+        let o = run_twin(&c.property, sb, &c.env, &c.tree, Src::Replay(&c.ops), &mut st, &|_| false);
+        sb.cleanup();
+        o
+    });
+    if let Some(w) = out.harness_skip {
+        return Err(w);
+    }
+    Ok((out.violations.into_iter().next(), format!("{:016x}", out.log_hash)))
 }
 
 pub fn run_index(id: &str, tier: &str, seed: u64, idx: u64, stats: &mut Stats, known: &dyn Fn(&Violation) -> bool) -> Option<Finding> {
